@@ -151,3 +151,20 @@ claim(
     '',
     'taint/dominance rule + table agreement + regex language equality + event-tracking path walk',
 )
+
+claim(
+    'C12',
+    'Decided: (R1) the decision table of match_attribute_name for [a], [|a], [*|a], [p|a] (mapped) and [q|a] '
+    '(unmapped) over every element with up to two attributes drawn from seven kinds (plain, upper-case, other name, '
+    'in the mapped namespace, in another namespace, in another namespace under a document prefix equal to the '
+    'selector prefix), in XML and in namespace-aware HTML, equals the table the property states; (R3) likewise '
+    'match_namespace for E, |E, *|E, p|E, q|E x default entry present/absent x four element namespaces; (R2) '
+    'Tag.prefix is read only by get_prefix_name, whose transitive callers are get_prefix and match_defined; (R4) the '
+    'implied universal selector is ("*", None) under "not sel.tag and not is_pseudo" at both sites; (R5) the prefix '
+    'map is an immutable copy. Both functions touch their inputs only through ==, is None, truthiness and dict '
+    'lookup, so the abstract cases are exhaustive for R3 and exhaustive up to two attributes per element for R1. '
+    'Not decided: whole-document behaviour (C01).',
+    'R1/R3 interpret the function ASTs over the abstract cases with a small evaluator; anything outside its '
+    'fragment is an ANALYSIS-ERROR.',
+    'decision-table extraction by finite-domain evaluation of the AST + attribute-access census over mypy types',
+)
